@@ -38,7 +38,8 @@ Section CopyInst.
 
   (* the copy `n` of the class `o` is finished: its own root, and of the leaf type that `o` had *)
   Definition done (o n : tyid) (s : st) : Prop :=
-    forall t, head s0 o = Some t -> rigid t = true -> exists nd, lk s n = Some nd /\ nty nd = t /\ nrep nd = n.
+    forall t, head s0 o = Some t -> is_unknown t = false ->
+              exists nd, lk s n = Some nd /\ same_shape t (nty nd) = true /\ nrep nd = n.
 
   Definition memo_ok (m : copymap) (D : list tyid) (s : st) : Prop :=
     forall o n, copy_lookup o m = Some n -> In o D \/ done o n s.
@@ -67,7 +68,8 @@ Section CopyInst.
   Proof.
     intros Ln Un O H o n L. destruct (H o n L) as [I|Dn]; [left; assumption|right].
     intros t Ht Rt. destruct (Dn t Ht Rt) as (nd & Ld & Tn & Rn). exists nd. split; [|auto].
-    rewrite O; [assumption|]. intros ->. rewrite Ln in Ld. injection Ld as <-. rewrite Un in Tn. subst t. discriminate.
+    rewrite O; [assumption|]. intros ->. rewrite Ln in Ld. injection Ld as <-. rewrite Un in Tn.
+    pose proof (same_shape_known _ _ Tn Rt) as X. discriminate X.
   Qed.
 
   Definition copy_post (a : tyid) (m : copymap) (D : list tyid) (s : st) (r : tyid) (m' : copymap) (s' : st) : Prop :=
@@ -266,7 +268,7 @@ Section CopyInst.
           + intros o k L. destruct (MOb _ _ L) as [[<-|I]|Dn]; [|left; assumption|right; assumption].
             right. rewrite copy_lookup_cons, Pos.eqb_refl in L. injection L as <-. intros t0 Ht0 Rt0.
             assert (tb = t0) by (pose proof (head_frame _ _ _ _ W0 F Ht0) as X; rewrite Hs in X; now injection X).
-            subst t0. eexists. split; [exact Nb|]. auto.
+            subst t0. eexists. split; [exact Nb|]. split; [apply same_shape_refl|reflexivity].
           + split; [intros o k L; rewrite copy_lookup_cons; destruct (Pos.eqb_spec ro o) as [->|]; [congruence|assumption]|].
             exists ro. split; [exact (rep_frame _ _ _ _ W Ff Hro)|exact Lnew].
         - intros ro' Hr' _. rewrite Hro in Hr'. injection Hr' as <-.
@@ -314,7 +316,7 @@ Section CopyInst.
           right. rewrite Lnew in L. injection L as <-. intros t0 Ht0 Rt0.
           assert (t = t0).
           { pose proof (head_frame _ _ _ _ W0 F Ht0) as X. rewrite Hs in X. now injection X. }
-          subst t0. rewrite (R4 Rt0) in N5. eexists. split; [exact N5|]. auto.
+          subst t0. eexists. split; [exact N5|]. split; [exact (proj1 (copy_ty_like _ _ _ _ _ _ _ H4))|reflexivity].
         + split; [intros o k L; apply L4, L2; rewrite copy_lookup_cons; destruct (Pos.eqb_spec ro o) as [->|]; [congruence|assumption]|].
           exists ro. split; [exact (rep_frame _ _ _ _ W Ff Hro)|exact Lnew].
       - intros ro' Hr' _. rewrite Hro in Hr'. injection Hr' as <-.
@@ -340,31 +342,47 @@ Section CopyInst.
 End CopyInst.
 
 (* fn copy: every component of the instance is the copy of the component at the same position; a component whose type
-   is a leaf has that type in the instance too *)
-Theorem copy_leaf_kids g a s r s' h x c t :
+   is known has a type of the same shape in the instance (a leaf: that very type) *)
+Theorem copy_known_kids g a s r s' h x c t :
   wf s -> copy (gfix g) a s = Ok (r, s') ->
-  head s a = Some h -> kid h x = Some c -> head s c = Some t -> rigid t = true ->
-  exists h' c', head s' r = Some h' /\ kid h' x = Some c' /\ head s' c' = Some t.
+  head s a = Some h -> kid h x = Some c -> head s c = Some t -> is_unknown t = false ->
+  exists h' c' t', head s' r = Some h' /\ kid h' x = Some c' /\ head s' c' = Some t' /\ same_shape t t' = true.
 Proof.
   intros W H Hh K Hc Rt. unfold copy in H. apply bind_inv in H as ([r0 m'] & s1 & H1 & H). injection H as <- <-.
   destruct g as [|g]; [discriminate|]. cbn [gfix gstep g_copy] in H1.
   assert (MO : memo_ok s [] [] s) by (intros o n L; discriminate).
   destruct (copy_body_spec s W (gfix g) (gfix_pres g) (copy_spec_gfix s W g) a [] [] s _ _ _ W (frame_refl s) MO H1)
-    as [_ X].
+    as [(_ & _ & _ & _ & ra & Rra & Lra) X].
+  destruct (copy_body_shape (gfix g) (gfix_pres g) a s _ _ _ W H1) as (h0 & h0' & Hh0 & Hh0' & CL).
+  rewrite Hh in Hh0. injection Hh0 as <-.
   destruct (rep s a) as [ro|] eqn:Ra.
   2:{ unfold copy_body in H1. apply bind_inv in H1 as (ro & s_ & Hro & _). apply find_inv in Hro as [_ Hro]. congruence. }
   destruct (X ro eq_refl eq_refl) as (t0 & t' & nd & Ht0 & Lr & Tn & Rn & Kc & _ & MO').
   destruct (head_of_rep _ _ _ W Ra) as [Hro _]. rewrite Hh in Hro. rewrite Hro in Ht0. injection Ht0 as <-.
   destruct (Kc _ _ K) as (c' & rc & K' & Rc & Lc).
   assert (Hr : head s1 r0 = Some t') by (unfold head; rewrite Lr, Rn, Lr; cbn [option_map]; rewrite Tn; reflexivity).
-  exists t', c'. split; [assumption|]. split; [assumption|].
-  (* the component is not the class that is being copied, so its copy is finished *)
+  rewrite Hr in Hh0'. injection Hh0' as <-.
+  (* the copy of the component: finished, or the class that is being copied itself (a recursive type) *)
   destruct (framed_copy_body (gfix g) (gfix_pres g) a [] s _ _ W H1) as [W1 F1].
   assert (Rc0 : rep s c = Some rc).
   { unfold head in Hc. unfold rep in *. destruct (lk s c) as [nc|] eqn:Ec; [|discriminate].
     rewrite (lk_frame _ _ _ _ W F1 Ec) in Rc. assumption. }
   destruct (head_of_rep _ _ _ W Rc0) as [Hrc _]. rewrite Hc in Hrc.
   destruct (MO' _ _ Lc) as [[E|[]]|Dn].
-  - subst rc. rewrite Hro in Hrc. injection Hrc as ->. destruct t; discriminate.
-  - destruct (Dn _ Hrc Rt) as (ndc & Lc' & Tc & Rc'). unfold head. rewrite Lc', Rc', Lc'. cbn [option_map]. rewrite Tc. reflexivity.
+  - subst rc. rewrite Hro in Hrc. injection Hrc as ->.
+    rewrite (rep_frame _ _ _ _ W F1 Ra) in Rra. injection Rra as <-. rewrite Lc in Lra. injection Lra as ->.
+    exists t', r0, t'. split; [assumption|]. split; [assumption|]. split; [assumption|exact (proj1 CL)].
+  - destruct (Dn _ Hrc Rt) as (ndc & Lc' & Tc & Rc'). exists t', c', (nty ndc). split; [assumption|]. split; [assumption|].
+    split; [|exact Tc]. unfold head. rewrite Lc', Rc', Lc'. reflexivity.
+Qed.
+
+(* a component whose type is a leaf has that very type in the instance *)
+Theorem copy_leaf_kids g a s r s' h x c t :
+  wf s -> copy (gfix g) a s = Ok (r, s') ->
+  head s a = Some h -> kid h x = Some c -> head s c = Some t -> rigid t = true ->
+  exists h' c', head s' r = Some h' /\ kid h' x = Some c' /\ head s' c' = Some t.
+Proof.
+  intros W H Hh K Hc Rt.
+  destruct (copy_known_kids g a s r s' h x c t W H Hh K Hc (rigid_known _ Rt)) as (h' & c' & t' & A & B & C & D).
+  exists h', c'. split; [assumption|]. split; [assumption|]. rewrite C. f_equal. exact (rigid_shape _ _ Rt D).
 Qed.
